@@ -24,6 +24,11 @@ struct Case {
     root: String,
     #[serde(default)]
     settings: Settings,
+    /// "ref": all definitions through add_ref_types, root located by $ref;
+    /// "add_type": the root schema is passed to add_type itself (the other
+    /// definitions through add_ref_types)
+    #[serde(default)]
+    ingest: Option<String>,
 }
 
 #[derive(Deserialize, Default)]
@@ -74,10 +79,17 @@ fn run_case(case: &Case) -> Result<(String, serde_json::Value), String> {
         .iter()
         .map(|(k, v)| Ok((k.clone(), serde_json::from_value(v.clone()).map_err(|e| format!("schema {k}: {e}"))?)))
         .collect::<Result<_, String>>()?;
+    let direct = case.ingest.as_deref() == Some("add_type");
+    let (root_defs, defs): (Vec<_>, Vec<_>) = defs.into_iter().partition(|(k, _)| direct && *k == case.root);
     ts.add_ref_types(defs).map_err(|e| format!("add_ref_types: {e}"))?;
-    let root_ref: schemars::schema::Schema =
-        serde_json::from_value(json!({"$ref": format!("#/definitions/{}", case.root)})).unwrap();
-    let id = ts.add_type(&root_ref).map_err(|e| format!("add_type: {e}"))?;
+    let id = if direct {
+        let (_, schema) = root_defs.into_iter().next().ok_or("root definition missing")?;
+        ts.add_type(&schema).map_err(|e| format!("add_type: {e}"))?
+    } else {
+        let root_ref: schemars::schema::Schema =
+            serde_json::from_value(json!({"$ref": format!("#/definitions/{}", case.root)})).unwrap();
+        ts.add_type(&root_ref).map_err(|e| format!("add_type: {e}"))?
+    };
     let root_type = ts.get_type(&id).map_err(|e| format!("get_type: {e}"))?.name();
 
     let tokens = ts.to_stream();
